@@ -43,7 +43,7 @@ CLAIMED = {
  "C02": dict(text=GEN + "Partial: lunar before/after = chronological order (year, index in year, day) including a month vs its leap twin, for any leap month; LunarDay::new accepts exactly day 1..day count; LunarMonth::new invariant — engine B, counterexamples realised on a real year with that leap month. the civil -> lunar walk and its inverse under an abstract tiling month table (round trips and consecutive-day mapping hold wherever the real table tiles). Not covered: that the real new-moon table tiles (it has known gaps in AD 9-25 and AD 240).",
              note="Assumes: month records satisfy the constructor's invariant (03.c, decided in the same run).",
              technique=ENGB),
- "C03": dict(text=GEN + "Partial (structural clauses): LunarMonth::new acceptance and index in year for any leap table and any astronomy (engine B); month stepping moves by exactly n on the month line of any leap table, leap month right after its twin (Kani, = 11.e); year listing (Kani thorough; engine B on a month line) and year day count = sum over the listed months (engine B). Not covered: 29/30-day lengths, abutment, year lengths — data of ~123,700 evaluated lunations.",
+ "C03": dict(text=GEN + "Partial (structural clauses): LunarMonth::new acceptance and index in year for any leap table and any astronomy (engine B); month stepping moves by exactly n on the month line of any leap table, leap month right after its twin (Kani, = 11.e); year listing (engine B on a month line; Kani over a symbolic leap window under C13 thorough) and year day count = sum over the listed months (engine B). Not covered: 29/30-day lengths, abutment, year lengths — data of ~123,700 evaluated lunations.",
              note="Assumes: ENV-A (astronomical kernel arbitrary, float comparisons arbitrary), ENV-L (leap table symbolic on a 5-7 year window), LunarMonth::from_ym without the memo.",
              technique=ENGB + " + " + BMC),
  "C06": dict(text=GEN + "Partial: term stepping = constructing n places later incl. year carry (Kani); day -> term lookup under an abstract term table: with the alignment contract the reported term is the latest one on or before the date and the day index is the days since its day, 0..16 (engine B, walk loop unrolled, bound proved), and the same for instants (SolarTime::get_term); without the contract the solver finds the known forward-walk defect, which is realised natively and printed as KNOWN-FINDING. Not covered: spacing/monotonicity of the real term instants, in which years the alignment contract holds.",
